@@ -47,6 +47,11 @@ PROPS = {
                 "the reachable state space (state = representation + pairs) from 5 start literals over ~45 operations per state (14 sets, 7 "
                 "deletes, rest, up to 11 slices, 7 merges), quick: first 350 states, thorough: the whole space (fixpoint reached, ~1.9k states); "
                 "40 (quick) / 400 (thorough) seeded random histories of 20-60 operations over a 20-key universe, every prefix a case. "
+                "Mode I (60 / 800 random histories of 8-37 operations through grol source, every prefix a case; harness/cmd/harness/mapops_iter.go): the same "
+                "operations plus slices with bounds as written (negative = from the end, open upper bound, out of range, left > right = error), m.k = v and del(m.k); "
+                "universe of 25 keys: identifiers, \"\", \"a b\", 0 / 0.0 / -0.0 and 1 / 1.0 (one key each), 1.5, -1, 2^53+1 next to 2^53.0 and 2^53, NaN, true, false, nil, "
+                "[], [1], [1,[1.0]], a map; values incl. maps and arrays; observation: ITERATION ORDER three ways (keys(m), a `for kv := m` loop, repeated first/rest), m.k "
+                "for the identifier keys, and ==, != (both ways) against three perturbed copies (one value replaced, last pair dropped, one key added: never equal). "
                 "The statement compares every observation except the representation with the reference finite map (Spec) run on the same "
                 "history. non-trivial = non-empty history.",
         "trusted_base": COMMON_TB + ["modelled: object/object.go SmallMap/BigMap get, Get, Set, Delete, Len, First, Rest, Range, Append, mapElements, NewMapSize, "
@@ -75,7 +80,10 @@ PROPS = {
                 "random values): object.Cmp both ways and on itself, object.Equals both ways and against an independently built copy, "
                 "and `< <= > >= == !=` both ways plus min/max evaluated from grol source. T lines: triples (quick: a quarter of all "
                 "numeric triples + 60k random triples + all triples inside every window of 4 neighbours in the implementation's own order; thorough: all ~2.1M triples of the universe + 300k random + windows) with Cmp/Equals on "
-                "(a,b),(b,c),(a,c). The driver recomputes everything with the model and evaluates the order axioms on the "
+                "(a,b),(b,c),(a,c). O lines (403 / 6003): SORTING - sort.Sort on an object.BigArray (BigArray.Less, the only sorting in grol) of 9-48 values drawn from the "
+                "numbers, from all data values, or from a sub-universe of 2-5 values (many equivalent ones): the result must hold exactly the given values and be in "
+                "`<=` order (the model's insertion sort agrees up to the order of equivalent values). N lines (1500 / 20000): min and max of 3-6 values from grol source: the result is "
+                "one of the arguments and no argument is smaller / larger. The driver recomputes everything with the model and evaluates the order axioms on the "
                 "implementation's results. non-trivial = all operands are data values (no RETURN/MACRO object).",
         "trusted_base": COMMON_TB + ["modelled: object/object.go Cmp, cmpIntFloat, Equals, TypeEqual, IsIntType, areIntFloat, Value (registers), "
                                      "Go's cmp.Compare on int64/string/float64, math.Trunc and int64(float64) on the exact value of a binary64; "
@@ -89,16 +97,25 @@ PROPS = {
     "C20": {
         "proof_modules": ["GrolProofs.Props.C20"],
         "theorems": ["Grol.Trie.C20.contains_iff", "Grol.Trie.C20.prefixAll_spec", "Grol.Trie.C20.complete_sound",
-                     "Grol.Trie.allBytes_spec", "Grol.Trie.wf_build", "Grol.Trie.contains_foldl_insert"],
+                     "Grol.Trie.C20.complete_sound_at_end", "Grol.Trie.allBytes_spec", "Grol.Trie.wf_build", "Grol.Trie.contains_foldl_insert"],
         "suites": ["trie"],
         "rule": "trie suite: every case is an insertion history (ordered list of words) plus one query; exhaustive families = all "
                 "ordered sequences of <=4 (quick) / <=5 (thorough) distinct words from the words of length <=2 over {a,b} (and {a,0x00,0xff}, "
                 "{a,0xff}, {a,b,0xff}) incl. the empty word x all queries of length <=3; all subsets of the 14 words of length <=3 over {a,b} "
-                "in sorted and reverse order; random histories of up to 7 words of length <=6 with forced prefix/extension relations. "
+                "in sorted and reverse order; random histories of up to 7 words of length <=6 with forced prefix/extension relations; "
+                "the completion callback with the cursor INSIDE the line (all histories of <=2 words of length <=2 over {a,b} x all lines of length <=3 x every "
+                "cursor position, 4000/60000 random ones: the text after the cursor must come back unchanged); SESSIONS (1500/20000): the words are not given but "
+                "recorded by the real interpreter (eval.State.RegisterTrie + object.record on every new top-level binding) while it evaluates 1-12 inputs drawn from "
+                "value/function/lambda/named-function definitions, updates that change the kind, del, copies, failing definitions, index and dot assignments, loop "
+                "variables, assignments inside calls, ++, := of fresh names, over names sharing prefixes with each other and with pre-seeded identifiers; the harness "
+                "reports the top-level store after every input, the driver recomputes the words (new name => name + '(' or ' ', and name) and additionally checks that "
+                "everything a prefix query returns is `info `, or name / name( / name<space> of a name bound at top level at some point, and that every name bound now is a member. "
                 "non-trivial = history inserts at least one word; distinct = distinct (history, query) line.",
         "trusted_base": COMMON_TB + ["modelled: trie/trie.go (Insert, Prefix, Contains, IsValid, PrefixAll, All, AllBytes), "
-                                     "repl/completion.go autoCompleteCallback (returned line only; terminal output not modelled)",
-                                     "not modelled: object.record / RegisterTrie (which words the REPL inserts)"],
+                                     "repl/completion.go autoCompleteCallback (returned line and cursor for any cursor position <= len(line); terminal output not modelled); "
+                                     "object.record / RegisterTrie as a function of the top-level stores observed between inputs (driver only, no theorem)",
+                                     "not modelled: `:=` on a name that exists records it again (observed: abs:=2 adds `abs ` next to `abs(`; the session generator uses := "
+                                     "on fresh names only); the words Interactive() inserts for keywords, builtins and extensions (repl.go, needs a terminal)"],
         "assumptions": ["Go pointer sharing of the end marker is unobservable (Insert never descends into it; shown by the model's case split and exercised by the suite)"],
     },
     "C16": {
@@ -115,7 +132,9 @@ PROPS = {
                      "Grol.Lexer.appendRune_eq", "Grol.Lexer.readStringLoop_agree", "Grol.Lexer.readString_eq_spec",
                      "Grol.Lexer.C16.string_literal", "Grol.Lexer.C16.unterminated_string",
                      "Grol.Lexer.skipWhitespace_flags", "Grol.Lexer.C16.lineInv_next", "Grol.Lexer.C16.lastNewLine_le",
-                     "Grol.Lexer.C16.flags_exact", "Grol.Lexer.C16.after_linecomment", "Grol.LexStream.lexer_streamWF"],
+                     "Grol.Lexer.C16.flags_exact", "Grol.Lexer.C16.after_linecomment", "Grol.LexStream.lexer_streamWF",
+                     "Grol.Lexer.isTrimOf_trimSpaceRight", "Grol.Lexer.isTrimOf_iff", "Grol.Lexer.C16.linecomment_literal",
+                     "Grol.Lexer.C16.literal_ends_line", "Grol.LexStream.lexer_litFact"],
         "suites": ["lex"],
         "rule": "lex suite: every case is one byte string in one lexer mode (f = lexer.NewBytes, l = lexer.NewLineMode); the observation is "
                 "every NextToken call up to the first end marker plus 3 more calls (type, literal, Pos before/after, HadWhitespace, "
@@ -161,6 +180,8 @@ PROPS = {
                 "re-listed and hashed, the changed paths and the loaded sentinel are compared with the model's prediction, and the tree is put back. "
                 "Unrestricted: a fixed list of 15 relative names (shows the sentinels are reachable without the sanitiser). "
                 "image.new(name,2,2); image.save(name) for the 31 aimed names x 4 configurations (touches ./grol.png only). "
+                "PROCESS EXECUTION, dynamically: exec(\"touch\", name) and run(\"touch\", name) for 3 names x 4 configurations: an error and an untouched tree unless IO is "
+                "unrestricted (there the file appears: the functions exist and work); save() and load() WITHOUT argument x 4 configurations (./.gr, or an error when load/save are disabled). "
                 "non-trivial = a call with an argument; distinct = distinct case line.",
         "trusted_base": COMMON_TB + [
             "modelled: extensions.sanitizeFileName, lexer.IsAlphaNum; from the source text (regenerated Grol/Generated/IOFacts.lean): the list of "
@@ -187,6 +208,10 @@ PROPS = {
                 "maps, floats, lambdas and named functions; the lines a complete save writes are measured by one undisturbed reference run per state. "
                 "quick: the 50-binding states only against each other and 'no file', every 4th binding point; thorough: everything. Observed: exit kind, "
                 "bytes of .gr, bytes of the left-over temp file, and whether a fresh process auto-loading .gr dumps exactly those bytes. "
+                "HISTORIES (54 quick cases; harness/cmd/harness/autosave_hist.go): the interrupted save is not the first thing the process does - (S) one process evaluates a "
+                "first program, auto-saves undisturbed, evaluates a second program (new bindings, an updated and a deleted old one, or nothing) and is killed / fails in its "
+                "SECOND AutoSave; (L) what a session does: AutoLoad of the old file, a program, AutoSave; same crash points (hook hit counts translated past the first save) and "
+                "write failures. "
                 "non-trivial = the new state differs from the last save (the save is not skipped).",
         "trusted_base": COMMON_TB + [
             "modelled: repl.AutoSave (skip test, CreateTemp, SaveGlobals as one write per binding, Rename, error returns), abstract file system name -> bytes",
@@ -214,7 +239,7 @@ PROPS = {
                 "with GOMEMLIMIT=64MiB, ulimit -v and a 20 s timeout, far from the budget on either side, incl. the former overflow witnesses. "
                 "d: recursion of depth 0..39 run with MaxDepth around the measured need and in 10..310: outcome, counter at recovery, counter after Reset (150). "
                 "non-trivial = request above 256 objects (g) / every e, c, d case. "
-                "bounded suite (RUNTIME part, measurements): ~65 (quick) / ~450 (thorough) programs, each in its own child process (re-exec of the harness, "
+                "bounded suite (RUNTIME part, measurements): ~140 (quick) / ~1100 (thorough) programs, each in its own child process (re-exec of the harness, "
                 "GOMEMLIMIT=256MiB, ulimit -v 6 GiB, kill after deadline+25 s, up to 8 at a time; a killed/dead/slow run is repeated once alone) through "
                 "repl.EvalStringWithOption with MaxDepth in {10,100,1000,10000,default} and MaxDuration in {1ms,10ms,100ms,1s} (0 = none for the recursion and one "
                 "concatenation family). Families: non-terminating loops (empty, counting, nested, printing, counted 1<<62, calling), unbounded recursion (self, with "
@@ -224,7 +249,13 @@ PROPS = {
                 "literals, a left-deep + chain; blocks 1000..4000; thorough: 10^6), values with shared structure (a=[a,a] 8..15 times, then a==a / println(a)), huge count x EMPTY operand under a 100 ms / 1 s deadline "
                 "([]*N, x[3:3]*N, (0:0)*N, (k:k)*N, \"\"*N, \"abc\"[3:3]*N, and counted loops of N merges of {} / []; N in {2^40, 2^62, 2^62+1, 2^63-1}; these "
                 "children are killed 8 s after the deadline, at most 2 killed runs are repeated), counts whose product with the operand length wraps "
-                "([1,2,3,4]*N, [1,2]*N, \"abcd\"*N), sleep(10). Measured per run: exit status, result kind, wall time inside "
+                "([1,2,3,4]*N, [1,2]*N, \"abcd\"*N), sleep(10); and ~45 programs that reach the guards through LIBRARY FUNCTIONS, BUILTINS and MACROS "
+                "(harness/cmd/harness/bounded_ext.go): loops printing / logging 1 MB per iteration (the output is buffered), loops of eval(), of caught errors and of caught "
+                "non-terminating calls; unbounded recursion through eval() at every level (100 ms deadline, depth limits, both); catch around unbounded recursion; growth in a loop "
+                "through image.new (host-side objects), sprintf, join, str; image.new of 1024, 1025, 2^31, 2^62 pixels a side; a format width of 2*10^9; one call on an operand near "
+                "the budget whose result is a multiple of it (split per character / per separator, runes, str, json, base64 on 10^7..10^8 elements/bytes) and a small one each; regsub "
+                "on sizes that fit; nested text COMPUTED by the program and parsed by eval / unjson (balanced 10^4..3*10^4, unclosed 100..2*10^4: two parse errors per level); "
+                "n nested uses of a macro that doubles its argument (2..11 and 24..31), a macro that expands to itself. Measured per run: exit status, result kind, wall time inside "
                 "EvalStringWithOption, peak RSS (VmHWM). Statement (lean/Grol/BoundedSuite.lean): exit 0, wall <= deadline + 3000 ms, RSS <= 4 x limit, result kind allowed "
                 "for the family (loops: deadline; unbounded recursion: depth, or deadline when one is set; huge operands: refused or within the budget; never a stray Go panic). "
                 "The driver predicts the result kind from Grol.Memory / Grol.Depth where it can (compared: agree) — wall time and RSS are never predicted.",
@@ -241,8 +272,8 @@ PROPS = {
             "MakeObjectSlice calls, in order) and C09.guarded_loops_guards pins that text",
             "MEASURED, not proved (bounded suite): wall-clock time after the deadline, peak RSS, survival of the process (Go stack growth, GC behaviour, scheduler latency); "
             "thresholds are the named constants slackMs, rssFactor, memLimitKB of lean/Grol/BoundedSuite.lean; timing depends on the machine and its load",
-            "NOT covered: loops inside extensions/, ast/ (printer), parser/, lexer/ and the Go standard library; the other MustBeOk call sites in extensions (str functions) and "
-            "object (function parameters/body); programs outside the listed families"],
+            "NOT covered by a model or theorem (runtime measurements of the listed families only): loops inside extensions/, ast/ (printer), parser/, lexer/ and the Go standard "
+            "library; the MustBeOk call sites in extensions (split, runes, join, image.new) and object (function parameters/body); programs outside the listed families"],
         "assumptions": ["one evaluation step that is not polled may cost time proportional to the memory budget (a+a on a 64 MiB array under GC pressure: 1.2 s measured), "
                         "which is why the slack is 3 s and not milliseconds",
                         "the eval model (lean/Grol/Eval/Ops.lean) was not changed for the new guard on string + string: it only fires above 4096 bytes with less free memory than the "
@@ -352,8 +383,8 @@ PROPS = {
     "C15": {
         "generated": True,
         "proof_modules": ["GrolProofs.Props.C15", "GrolProofs.Props.C08", "GrolProofs.Props.C15chunks"],
-        "theorems": ["Grol.C15.witness_unclosed_string_after_statement", "Grol.C15.witness_empty_lambda_parameter_list",
-                     "Grol.C15.witness_unclosed_comment_ending_in_star_slash", "Grol.C15.witness_file_mode_accepts_unclosed_block",
+        "theorems": ["Grol.C15.witness_unclosed_string_after_statement", "Grol.C15.fixed_empty_lambda_parameter_list",
+                     "Grol.C15.fixed_unclosed_comment_ending_in_star_slash", "Grol.C15.witness_file_mode_accepts_unclosed_block",
                      "Grol.C08.parser_never_panics",
                      "Grol.E.C15.evalStatements_append", "Grol.E.C15.evalStatements_append_null", "Grol.E.C15.evalStatements_append_fresh",
                      "Grol.E.C15.evalStatements_init_irrelevant", "Grol.E.C15.evalI_stmts_append", "Grol.E.C15.evalI_stmts_append_outcome",
@@ -386,9 +417,19 @@ PROPS = {
         "generated": True,
         "proof_modules": ["GrolProofs.Props.C02", "GrolProofs.Props.C08", "GrolProofs.Precedence"],
         "theorems": ["Grol.C02.witness_statement_starts_with_prefix_operator", "Grol.C02.witness_repeated_associative_operator", "Grol.C08.parser_never_panics", "Grol.C08.printer_never_panics",
-                     "Grol.Generated.precedences_documented"],
-        "suites": ["format"],
-        "rule": _FRONT_RULE + " format suite: one case = one source text; in file mode and in line mode: parse, print (normal, compact, "
+                     "Grol.Generated.precedences_documented",
+                     "Grol.C02.roundtrip_partial", "Grol.C02.roundtrip_streamOf", "Grol.C02.roundtrip_partial_lex", "Grol.RT.gpx_node", "Grol.RT.parse_rendered",
+                     "Grol.C02.outside_fragment_assoc", "Grol.C02.outside_fragment_stmt"],
+        "suites": ["format", "printtokens"],
+        "rule": _FRONT_RULE + " printtokens suite (ties the token-level rendering PrintTokens.progToks, the object of C02.roundtrip_partial, to the code): one case = one "
+                "source text, file mode; when it parses error-free, the REAL printer's output in the 4 print modes (normal, compact, all-parens, compact+all-parens) is lexed by "
+                "the REAL lexer and each token reduced to what an error-free parse reads (type, literal, number class, whitespace-in-front for `(` and `[`); for a tree in the "
+                "fragment fragProg the driver recomputes these tokens from the tree with progToks (any difference = disagreement) and evaluates the theorem's conclusion on the "
+                "observed tokens (the parser model returns the original program); trees outside the fragment are declined (tags outside-<mode> and outside-c:<innermost construct that keeps it out>). Families: the operator-pair "
+                "family of the format suite, every ordered pair of the 21 binary operators in 6 nesting/statement templates and x 7 prefix operators in 4 templates, every ordered "
+                "pair of 29 statement shapes of the fragment x 3 separators (+ a three-statement form), 12000 (thorough 300000) random programs of the fragment grammar with "
+                "redundant and necessary parentheses, 1500 (30000) programs of the general grammar. non-trivial = non-empty program in the fragment in at least one mode."
+                " format suite: one case = one source text; in file mode and in line mode: parse, print (normal, compact, "
                 "all-parens, compact+all-parens), re-parse the normal and the compact text, print again. Families: every ordered pair of the 20 infix "
                 "operators in parent/left-child and parent/right-child position, x 7 prefix and 2 postfix operators, index/call/dot/lambda "
                 "combinations (~40 templates per operator); ~330 hand-picked adjacency, comment, literal and lambda cases; every ordered pair of 41 "
@@ -406,8 +447,8 @@ PROPS = {
     },
     "C03": {
         "generated": True,
-        "proof_modules": ["GrolProofs.Props.C03", "GrolProofs.Props.C08"],
-        "theorems": ["Grol.C03.exactly_one_newline_parsed", "Grol.Parser.parseProgram_endOK", "Grol.Parser.litFact_of_b", "Grol.Parser.allEnd",
+        "proof_modules": ["GrolProofs.Props.C03", "GrolProofs.Props.C08", "GrolProofs.Props.C03Lexed"],
+        "theorems": ["Grol.C03.exactly_one_newline_lexed", "Grol.LexStream.lexer_litFact", "Grol.C03.exactly_one_newline_parsed", "Grol.Parser.parseProgram_endOK", "Grol.Parser.litFact_of_b", "Grol.Parser.allEnd",
                      "Grol.C03.ends_with_newline", "Grol.C03.exactly_one_newline", "Grol.Printer.printNode_P", "Grol.Printer.printNode_frame", "Grol.C03.model_is_stateless",
                      "Grol.C03.witness_not_idempotent", "Grol.C08.printer_never_panics"],
         "suites": ["format03"],
